@@ -1139,6 +1139,14 @@ class Exec:
     def e_GeneratorExp(self, e, ctx):
         return self.comprehension(e, ctx, list)
 
+    def e_DictComp(self, e, ctx):
+        # {k: v for ... in <concrete container> if ...}: evaluated as a list comprehension of (k, v) pairs
+        pair = ast.Tuple(elts=[e.key, e.value], ctx=ast.Load())
+        lc = ast.ListComp(elt=pair, generators=e.generators)
+        ast.copy_location(lc, e)
+        ast.fix_missing_locations(lc)
+        return [(c, v if isinstance(v, ExcVal) else dict(v)) for c, v in self.comprehension(lc, ctx, list)]
+
     def comprehension(self, e, ctx, kind):
         if len(e.generators) != 1:
             raise GenError("nested comprehension")
